@@ -174,9 +174,8 @@ Record replay_case := {
 (* every HTTP operation of a replay history must be an accepted description *)
 Definition aop_wf (o : aop) : bool :=
   match o with
-  | AHttp a _ uok _ ops1 ops2 =>
+  | AHttp _ _ uok _ ops1 ops2 =>
       match desc_outcome uok (ops1 ++ ops2) with Sent => true | _ => false end
-      && match a with Cmd => match ops2 with [] => true | _ => false end | Cap => true end
   | _ => true
   end.
 Definition step_wf (s : step) : bool := match s with SEvent ops => forallb aop_wf ops | _ => true end.
